@@ -39,7 +39,7 @@ Definition dec_iqtype (z : Z) : option iqtype :=
 Definition dec_op (x : sx) : option op :=
   match x with
   | SL [SZ 0; SS d; nz] => do b <- as_b nz; Some (OSend d b)
-  | SL [SZ 1; SS s] => Some (OSendRaw s)
+  | SL [SZ 1; SS s; nz] => do b <- as_b nz; Some (OSendRaw s b)
   | SL [SZ 2; SS d; SZ t] => do t' <- dec_iqtype t; Some (OSendIQ d t')
   | _ => None
   end.
